@@ -227,6 +227,12 @@ fn gen_value(kind: &str, pattern: &str, i: usize, n: usize, rng: &mut StdRng, sa
             "full" => (0..rng.random_range(0..12)).map(|_| char::from_u32(rng.random_range(0x20..0x3000)).unwrap_or('x')).collect(),
             _ => format!("k{}", base % 97),
         }),
+        // tokens of a tokenized text fast field (lower-case words): a tiny vocabulary gives adjacent repeats
+        "tok" => V::S(match pattern {
+            "rep" => ["bye", "love", "a"][rng.random_range(0..3)].to_string(),
+            "rep2" => ["x1", "x1", "zz", "q"][rng.random_range(0..4)].to_string(),
+            _ => format!("k{}", base % 11),
+        }),
         "bytes" => V::Y(match pattern {
             "const" => vec![1, 2, 3],
             "full" => (0..rng.random_range(0..9)).map(|_| rng.random()).collect(),
@@ -621,7 +627,7 @@ fn run_columnar(tracer: &Tracer, case: &Value) {
 }
 
 // ------------------------------------------------------------------ index path
-const INDEX_COLS: &[(&str, &str)] = &[("u", "u64"), ("i", "i64"), ("f", "f64"), ("b", "bool"), ("d", "date"), ("ip", "ip"), ("s", "str"), ("y", "bytes"),
+const INDEX_COLS: &[(&str, &str)] = &[("u", "u64"), ("i", "i64"), ("f", "f64"), ("b", "bool"), ("d", "date"), ("ip", "ip"), ("s", "str"), ("y", "bytes"), ("tk", "tok"), ("tkr", "str"),
     ("j.a", "mixed"), ("j.s", "str"), ("j.o.b", "bool"), ("j.o.d", "date")];
 
 fn json_insert(obj: &mut Vec<(String, OwnedValue)>, path: &[&str], vals: Vec<OwnedValue>) {
@@ -653,6 +659,10 @@ fn run_index(tracer: &Tracer, case: &Value) {
     sb.add_date_field("d", DateOptions::default().set_fast().set_precision(tantivy::schema::DateTimePrecision::Nanoseconds));
     sb.add_ip_addr_field("ip", FAST);
     sb.add_text_field("s", STRING | FAST);
+    // text fast fields with a fast-field tokenizer: "default" (every lower-cased token occurrence is a value of
+    // the multi-valued str column) and "raw" (the whole value)
+    sb.add_text_field("tk", TextOptions::default().set_fast(Some("default")));
+    sb.add_text_field("tkr", TextOptions::default().set_fast(Some("raw")));
     sb.add_bytes_field("y", FAST);
     sb.add_json_field("j", JsonObjectOptions::default().set_fast(None));
     let schema = sb.build();
@@ -686,7 +696,21 @@ fn run_index(tracer: &Tracer, case: &Value) {
                         V::Y(x) => OwnedValue::Bytes(x.clone()),
                     })
                     .collect();
-                if let Some(p) = name.strip_prefix("j.") {
+                if name == "tk" {
+                    // the tokens of the row become one or two text values (capitalised now and then, separated by
+                    // blanks or punctuation): the tokenizer gives the lower-case tokens back, in order
+                    let toks: Vec<String> = rows[row].iter().map(|v| if let V::S(x) = v { x.clone() } else { String::new() }).collect();
+                    let cut = if toks.len() >= 2 && (id + row as u64) % 3 == 0 { toks.len() / 2 } else { toks.len() };
+                    for part in [&toks[..cut], &toks[cut..]] {
+                        if part.is_empty() {
+                            continue;
+                        }
+                        let text: Vec<String> = part.iter().enumerate().map(|(i, t)| {
+                            if (i + row) % 3 == 0 { let mut c = t.chars(); c.next().map(|f| f.to_uppercase().collect::<String>() + c.as_str()).unwrap_or_default() } else { t.clone() }
+                        }).collect();
+                        d.add_text(schema.get_field("tk").unwrap(), text.join(if row % 2 == 0 { " " } else { ", " }));
+                    }
+                } else if let Some(p) = name.strip_prefix("j.") {
                     let path: Vec<&str> = p.split('.').collect();
                     json_insert(&mut jobj, &path, ov);
                 } else {
